@@ -310,3 +310,17 @@ PROPS["C08"]["technique"] = "bounded model checking (Kani/CBMC) of the post-read
 PROPS["C08"]["level_text"] += " z3-decided over MIR: acquire_extent under interference (other threads acquire/release/retire, RETIRED never cleared) hands out a guard only from a CAS that linearises with RETIRED clear and adds exactly one reader; in load_value_from_disk and prepare_deferred_record_data, on every path, the record whose extent is pinned IS the record whose sector is loaded (after the pin) and against which the bytes are identity-checked – including TTL-only generations that borrow a predecessor's extent (value_source chain followed twice)."
 PROPS["C08"]["level_note"] += " " + E2NOTE
 PROPS["C08"]["functions"] += [PERSIST + "::load_value_from_disk", WB + "::prepare_deferred_record_data"]
+
+PROPS["C07"] = {
+    "engine_name": "E2-mir-smt + E1-kani",
+    "technique": "SMT (z3) path-condition entailment over the MIR of the guarded replace/delete steps; Kani for the retirement-timestamp chain",
+    "level_text": "Reduced claim – the guarded-step obligations the property rests on, given that an scc entry guard serialises all mutations of one key (trusted): on EVERY MIR path of replace_record_if_current (the commit step of compare-and-swap / atomic increment), update_record_with_ttl and delete_with_timestamp that mutates the entry, z3 shows the path condition entails (a) the mutation happens under the Occupied entry guard, (b) ts_new > current.timestamp, (c) for CAS/increment: the entry still IS (pointer identity) the generation whose value was read – so no update is lost and exactly one of several racing CAS on the same expected generation can win, (d) the successor is linked on the current entry; Err paths before the mutation have no effect. Kani: retirement_timestamp() = max(retired_at) over the successor chain (<= 2 successors), which is what lets a writer that raced with a delete be refused.",
+    "level_note": E2NOTE + ". Histories, real-time order, the retry loops around the guarded step, JSON patch and insert-if-absent sites are NOT decided; this is a necessary-condition check, not a linearizability result.",
+    "functions": ["src/core/store/atomic.rs::replace_record_if_current", INTERNAL + "::update_record_with_ttl", OPS + "::delete_with_timestamp", RECORD + "::retirement_timestamp"],
+    "smt": "c07",
+    "kani": [H(RECORD, "c07_retirement_timestamp_is_chain_max", "retirement_timestamp = max over the record and its successor chain", "<= 2 successors, all u64")],
+    "bounds": "every MIR path, loops unrolled twice; successor chains <= 2",
+    "stubs": [DROPSLOW],
+    "assumptions": ["scc entry guard gives mutual exclusion per key"],
+    "outside": "interleavings as executions, linearizability checking of histories, json_patch / insert_if_absent sites",
+}
